@@ -98,7 +98,9 @@ def _csweep(case, out):
                 'hid': 1000 + 3 * np.arange(Hn, dtype=np.int64), 'hmultis': g.choice([1.0, 1.0, 0.5, 2.0], Hn),
                 'hrandoms': np.where(g.random(Hn) < 0.3, 0.0, g.random(Hn)), 'hveldev': g.normal(0, 150, (Hn, 3)),
                 'hsigma3d': np.ones(Hn), 'hc': np.ones(Hn), 'hrvir': np.ones(Hn)}
-        hidx = np.sort(g.integers(0, Hn, Pn))
+        hidx = g.integers(0, Hn, Pn)
+        if k % 2 == 0:
+            hidx.sort()            # otherwise: particles not in host order
         part = {'ppos': g.uniform(-L / 2, L / 2, (Pn, 3)), 'pvel': g.uniform(-1500, 1500, (Pn, 3)), 'phvel': halo['hvel'][hidx],
                 'phmass': halo['hmass'][hidx], 'phid': halo['hid'][hidx], 'pweights': g.choice([1.0, 0.5, 3.0], Pn),
                 'prandoms': np.where(g.random(Pn) < 0.3, 0.0, g.random(Pn) ** 3), 'pinds': hidx}
